@@ -314,7 +314,10 @@ func parseBlock(nativeBlock *hclsyntax.Block, from, leadComments, lineComments, 
 		children.AppendNode(in)
 	}
 
-	_, labelsNode, from := parseBlockLabels(nativeBlock, from)
+	beforeLabels, labelsNode, from := parseBlockLabels(nativeBlock, from)
+	// Any tokens between the type name and the first label (inline comments)
+	// must be kept, or they would be lost when the file is serialized.
+	children.AppendUnstructuredTokens(beforeLabels.Tokens())
 	block.labels = labelsNode
 	children.AppendNode(labelsNode)
 
